@@ -71,7 +71,7 @@ def cases(rng, tier):
                     for _ in range(rng.randint(0, 2)):
                         inner[rng.randrange(len(inner))] = rng.randrange(0, ln)
                     is_ = [lo] + inner + [hi2]
-                out.append({"a": a, "b": b, "dtype": dt, "ws": ws, "is": is_})
+                out.append({"a": a, "b": b, "dtype": dt, "ws": ws, "is": is_, "iform": rng.choice(gens.INT_FORMS[2:])})
     return out
 
 
@@ -127,6 +127,10 @@ def run_impl(p):
         else:
             o["getlist"] = canon([]); o["getlist_np"] = canon([])
         o["windows"] = guarded(lambda: [[int(x) for x in packed.sliding_window(w)] for w in p["ws"]])
+        # the same window sizes / positions given as numpy integer scalars (and position arrays of a narrow dtype)
+        frm = p.get("iform")
+        o["windows_npint"] = guarded(lambda: [[int(x) for x in packed.sliding_window(gens.int_form(w, frm))] for w in p["ws"]])
+        o["getitem_npint"] = guarded(lambda: [int(packed[gens.int_form(i, frm)]) for i in range(len(p["a"]))])
         o["data"] = guarded(lambda: [int(x) for x in packed._data])
         o["input_unmodified"] = canon(bool(np.array_equal(arr, before)))
         def independent():
@@ -162,6 +166,8 @@ def oracle(p):
         o["sub_ops"] = canon([sel, [sel[-1]], [[(sst >> (b * i)) % (1 << (w * b)) for i in range(k - w + 1)] for w in ws]])
     o["getlist_np"] = canon([a[i] for i in p["is"]])
     o["windows"] = {"k": "list", "v": [canon([(st >> (b * i)) % (1 << (w * b)) for i in range(len(a) - w + 1)]) for w in p["ws"]]}
+    o["windows_npint"] = o["windows"]
+    o["getitem_npint"] = o["getitem"]
     o["data"] = canon([(st >> (64 * r)) % (1 << 64) for r in range(-(-len(a) // n))])
     o["input_unmodified"] = canon(True)
     o["results_independent"] = canon(True)
